@@ -82,12 +82,12 @@ Lemma astep_fw_start s zero dl sleep eok s' :
 Proof.
   intros SL EO H. cbn [astep] in H. destruct (outstanding s); [discriminate|].
   destruct (a_stop s) eqn:ST.
-  - inversion H; subst; clear H. eexists; split; [|reflexivity]. rewrite fw_spawn. cbn [fw_step]. simp_f. reflexivity.
+  - inversion H; subst; clear H. eexists; split; [|reflexivity]. unfold spawn. cbn [fw_step]. simp_f. reflexivity.
   - destruct (a_abort s) eqn:AB.
-    + inversion H; subst; clear H. eexists; split; [|reflexivity]. rewrite fw_spawn. cbn [fw_step]. simp_f.
+    + inversion H; subst; clear H. eexists; split; [|reflexivity]. unfold spawn. cbn [fw_step]. simp_f.
       rewrite ST, AB. reflexivity.
     + destruct zero.
-      * inversion H; subst; clear H. eexists; split; [|reflexivity]. rewrite fw_spawn. cbn [fw_step]. simp_f.
+      * inversion H; subst; clear H. eexists; split; [|reflexivity]. unfold spawn. cbn [fw_step]. simp_f.
         rewrite ST, AB. cbn [orb]. destruct (a_sleep s) eqn:S1.
         -- rewrite (EO eq_refl). reflexivity.
         -- reflexivity.
@@ -100,17 +100,17 @@ Qed.
 Lemma astep_fw_abort s rv s' : astep s (LAbort rv) = Some s' -> fw_step (TAbort rv) (fw_of s) = Some (fw_of s').
 Proof.
   cbn [astep]. destruct (rv =? 0)%N; [discriminate|]. cbn [fw_step]. simp_f.
-  destruct (a_cancel s); intros H; inversion H; subst; rewrite ?fw_spawn; reflexivity.
+  destruct (a_cancel s); intros H; inversion H; subst; unfold spawn; reflexivity.
 Qed.
 
 Lemma astep_fw_stop s s' : astep s LStop = Some s' -> fw_step TStop (fw_of s) = Some (fw_of s').
 Proof.
   cbn [astep fw_step]. simp_f. destruct (a_expiring s); [discriminate|]. intros H; inversion H; subst.
-  rewrite fw_spawn. reflexivity.
+  unfold spawn. destruct (a_cancel s); reflexivity.
 Qed.
 
 Lemma astep_fw_close s s' : astep s LClose = Some s' -> fw_step TClose (fw_of s) = Some (fw_of s').
-Proof. cbn [astep fw_step]. intros H; inversion H; subst. rewrite fw_spawn. reflexivity. Qed.
+Proof. cbn [astep fw_step]. intros H; inversion H; subst. unfold spawn. destruct (a_cancel s); reflexivity. Qed.
 
 Lemma astep_fw_reset s s' : astep s LReset = Some s' -> fw_step TReset (fw_of s) = Some (fw_of s').
 Proof. cbn [astep fw_step]. destruct (outstanding s); [discriminate|]. intros H; inversion H; subst. reflexivity. Qed.
@@ -127,10 +127,10 @@ Proof.
   assert (E: negb ((if a_expire_ok s then A_OK else A_TIMEDOUT) =? (if a_expire_ok s then A_OK else A_TIMEDOUT))%N = false)
     by (rewrite N.eqb_refl; reflexivity).
   rewrite E. destruct (a_sleep s) eqn:SL.
-  - inversion H; subst; clear H. eexists; split; [reflexivity|]. cbn [orb]. rewrite fw_spawn. reflexivity.
+  - inversion H; subst; clear H. eexists; split; [reflexivity|]. cbn [orb]. unfold spawn. simp_f. rewrite ?ST. reflexivity.
   - destruct (a_cancel s) eqn:C; inversion H; subst; clear H; eexists; (split; [reflexivity|]); cbn [orb negb].
-    + rewrite fw_spawn. simp_f. rewrite SL. reflexivity.
-    + simp_f. rewrite SL. reflexivity.
+    + unfold spawn. simp_f. rewrite ?ST. reflexivity.
+    + simp_f. rewrite ?ST. reflexivity.
 Qed.
 
 (* continuations *)
